@@ -2,7 +2,7 @@
 import ast
 
 from ..core import AnalysisError, src
-from ..pysym import SymExec, show, path_values
+from ..pysym import SymExec, show, path_values, subterms
 from ..rules_pyx import N, C, A
 from .. import boolfn as bf
 from .. import logic
@@ -115,10 +115,49 @@ def r_xor(mod, rep, R='R13.3'):
                   '%s ^ other is not {same class and %s}: %s' % (name, ' and '.join(show(t) for t in mk(N('self'), N(o))), detail))
 
 
+def _erasure_impl(mod, rep, R):
+    """-> (method name, how the names are passed: 'star' | 'one', names parameter) of the per-class erasure methods.
+    Either Atom / Functor define clear_features(*names) themselves, or Category.clear_features(*names) forwards the names
+    to one method that both define; then the names must arrive as something that can be searched more than once."""
+    direct = all(mod.get(c + '.clear_features', required=False) is not None and
+                 any(isinstance(s_, ast.FunctionDef) and s_.name == 'clear_features' for s_ in mod.get(c).body) for c in ('Atom', 'Functor'))
+    if direct:
+        return 'clear_features', 'star'
+    base = None
+    for s_ in mod.get('Category').body:
+        if isinstance(s_, ast.FunctionDef) and s_.name == 'clear_features':
+            base = s_
+    if base is None or base.args.vararg is None:
+        raise AnalysisError('%s: clear_features(*names) is defined neither on Atom and Functor nor on Category' % REL)
+    va = base.args.vararg.arg
+    w = '%s:%s Category.clear_features' % (REL, base.lineno)
+    vals = path_values(SymExec(base, inline=False).run())
+    meth = how = None
+    ok = bool(vals)
+    for conds, v in vals:
+        if v[0] == 'call' and v[1][0] == 'attr' and v[1][1] == N('self') and len(v[2]) == 1 and not v[3]:
+            arg = v[2][0]
+            names = arg[1] if arg[0] == 'star' else arg
+            meth, how = v[1][2], ('star' if arg[0] == 'star' else 'one')
+            # a tuple (the varargs themselves) or a collection made from them can be searched at every leaf; a map / filter /
+            # generator / iterator is used up by the first leaf that looks at it
+            reiterable = names == N(va) or (names[0] == 'call' and names[1] in (N('tuple'), N('frozenset'), N('set'), N('list')) and names[2] and N(va) in set(subterms(names[2][0])))
+            one_shot = names[0] == 'genexp' or (names[0] == 'call' and names[1] in (N('map'), N('filter'), N('iter'), N('zip')))
+            rep.check(reiterable and not one_shot, R, w, 'Category:clear_features:names',
+                      'the names to erase reach every atom as a collection that can be searched repeatedly (%s)' % show(names)[:50],
+                      'the names to erase are handed down as %s: a one-shot iterator is consumed by the first atom that searches it, later atoms keep their features' % show(names)[:70])
+        else:
+            ok = False
+    if not ok or meth is None:
+        raise AnalysisError('%s: Category.clear_features does not forward to one per-class method' % REL)
+    return meth, how
+
+
 def r_clear(mod, rep, R='R13.4'):
-    fn = mod.get('Atom.clear_features')
-    w = '%s:%s Atom.clear_features' % (REL, fn.lineno)
-    va = fn.args.vararg.arg if fn.args.vararg else None
+    meth, how = _erasure_impl(mod, rep, R)
+    fn = mod.get('Atom.' + meth)
+    w = '%s:%s Atom.%s' % (REL, fn.lineno, meth)
+    va = fn.args.vararg.arg if fn.args.vararg else (fn.args.args[1].arg if len(fn.args.args) > 1 else None)
     hit = miss = None
     test = logic.formula(('cmp', 'in', A(N('self'), 'feature'), N(va)))
     for conds, v in path_values(SymExec(fn).run()):
@@ -132,17 +171,18 @@ def r_clear(mod, rep, R='R13.4'):
             hit = miss = False
     rep.check(bool(hit) and bool(miss), R, w, 'Atom:clear_features',
               'an atom drops its feature exactly when the feature is among the names to erase, and is otherwise returned unchanged',
-              'Atom.clear_features does not return Atom(base) / self on the membership test of its feature')
-    fn = mod.get('Functor.clear_features')
-    w = '%s:%s Functor.clear_features' % (REL, fn.lineno)
-    va = fn.args.vararg.arg if fn.args.vararg else None
-    ps = SymExec(fn).run()
-    rec = lambda side: ('call', A(A(N('self'), side), 'clear_features'), (('star', N(va)),), ())
+              'Atom.%s does not return Atom(base) / self on the membership test of its feature' % meth)
+    fn = mod.get('Functor.' + meth)
+    w = '%s:%s Functor.%s' % (REL, fn.lineno, meth)
+    va = fn.args.vararg.arg if fn.args.vararg else (fn.args.args[1].arg if len(fn.args.args) > 1 else None)
+    ps = SymExec(fn, no_inline=(meth,)).run()
+    arg = ('star', N(va)) if fn.args.vararg else N(va)
+    rec = lambda side: ('call', A(A(N('self'), side), meth), (arg,), ())
     wants = [('call', A(N('self'), 'functor'), (rec('left'), rec('right')), ()),
              ('call', N('Functor'), (rec('left'), A(N('self'), 'slash'), rec('right')), ())]
     ok = len(ps) == 1 and ps[0][0].ret in wants
     rep.check(ok, R, w, 'Functor:clear_features', 'a functor is rebuilt with the same slash from the erased left and right sides',
-              'Functor.clear_features returns %s' % (show(ps[0][0].ret) if ps and ps[0][0].ret else '?'))
+              'Functor.%s returns %s' % (meth, show(ps[0][0].ret) if ps and ps[0][0].ret else '?'))
     fn = mod.get('Functor.functor')
     w = '%s:%s Functor.functor' % (REL, fn.lineno)
     lam = [n for n in ast.walk(fn) if isinstance(n, ast.Lambda)]
